@@ -124,6 +124,18 @@ func Decode(encdoc EncodedDocument, collectionDefinition client.CollectionDefini
 		return nil, err
 	}
 
+	// A new document starts with the default values of its fields. A stored document has all of its
+	// values: a field without a property is null, the default must not stand in for it.
+	for _, field := range collectionDefinition.GetFields() {
+		if field.DefaultValue == nil {
+			continue
+		}
+		err = doc.Set(field.Name, nil)
+		if err != nil {
+			return nil, err
+		}
+	}
+
 	for desc, val := range properties {
 		err = doc.Set(desc.Name, val)
 		if err != nil {
